@@ -300,6 +300,130 @@ def generate_heap(repo, outpath):
     return notes
 
 
+# ---------------------------------------------------------------------------------------------
+# C07: the published JSON_SCHEMA (pure literal data) as a term of coq/Model/Json.v
+
+def schema_term(e, env):
+    if isinstance(e, ast.Dict):
+        items = []
+        for k, v in zip(e.keys, e.values):
+            if not (isinstance(k, ast.Constant) and isinstance(k.value, str)):
+                raise Decline("schema key")
+            items.append("(%s, %s)" % (coq_lit(k.value), schema_term(v, env)))
+        return "(JObj [%s])" % "; ".join(items) if items else "(JObj [])"
+    if isinstance(e, (ast.List, ast.Tuple)):
+        return "(JList [%s])" % "; ".join(schema_term(x, env) for x in e.elts) if e.elts else "(JList [])"
+    if isinstance(e, ast.Constant):
+        v = e.value
+        if v is None:
+            return "JNull"
+        if isinstance(v, bool):
+            return "(JBool %s)" % ("true" if v else "false")
+        if isinstance(v, int):
+            return "(JInt (%d))" % v
+        if isinstance(v, str):
+            return "(JStr %s)" % coq_lit(v)
+        raise Decline("schema constant %r" % (v,))
+    if isinstance(e, ast.Attribute) and e.attr == "__doc__":
+        return "(JStr %s)" % coq_lit("doc")      # docstrings are annotations (description)
+    if isinstance(e, ast.Name) and e.id in env:
+        return env[e.id]
+    raise Decline("schema expression " + type(e).__name__)
+
+
+def coq_lit(text):
+    if any(ord(ch) > 126 or ord(ch) < 32 for ch in text):
+        raise Decline("non-printable character in schema string")
+    return '(lit "%s")' % text.replace('"', '""')
+
+
+def generate_schema(repo, outpath):
+    from common import write_if_changed
+    notes = {}
+    try:
+        with open(os.path.join(repo, "code_data", "__init__.py")) as f:
+            tree = ast.parse(f.read())
+        defs = schema_term(find_assign(tree, "_definitions"), {})
+        schema = schema_term(find_assign(tree, "JSON_SCHEMA"), {"_definitions": "schema_definitions"})
+        text = ("(* generated by harness/translate_src.py from code_data/__init__.py on every run; do not edit *)\n"
+                "From Coq Require Import String List.\nImport ListNotations.\n"
+                "From PCD Require Import Base.PyBase Model.Json.\nOpen Scope Z_scope.\n\n"
+                "Definition schema_definitions : json := %s.\n\nDefinition JSON_SCHEMA : json := %s.\n"
+                "Definition schema_translated := true.\n" % (defs, schema))
+        notes["schema"] = "translated"
+    except (Decline, OSError, SyntaxError) as e:
+        text = ("(* JSON_SCHEMA declined: %s *)\nFrom PCD Require Import Base.PyBase Model.Json.\n"
+                "Definition schema_definitions : json := JObj nil.\nDefinition JSON_SCHEMA : json := JObj nil.\n"
+                "Definition schema_translated := false.\n" % e)
+        notes["schema"] = "declined: %s" % e
+    notes["changed"] = write_if_changed(outpath, text)
+    return notes
+
+
+# ---------------------------------------------------------------------------------------------
+# C07/C15: the dataclass fields and their defaults (what to_json_data may omit), as data
+
+def default_kind(v):
+    if v is None:
+        return "D_required"
+    if isinstance(v, ast.Constant):
+        if v.value is None:
+            return "D_None"
+        if v.value is False:
+            return "D_False"
+        if v.value == 0 and not isinstance(v.value, bool):
+            return "D_zero"
+        raise Decline("default constant %r" % (v.value,))
+    if isinstance(v, ast.Tuple) and not v.elts:
+        return "D_empty_tuple"
+    if isinstance(v, ast.Call) and isinstance(v.func, ast.Name) and v.func.id == "tuple" and not v.args:
+        return "D_empty_tuple"
+    if isinstance(v, ast.Call) and isinstance(v.func, ast.Name) and v.func.id == "field":
+        kw = {k.arg: k.value for k in v.keywords}
+        if "default" in kw:
+            return default_kind(kw["default"])
+        if "default_factory" in kw:
+            f = kw["default_factory"]
+            if isinstance(f, ast.Lambda) and isinstance(f.body, ast.Call) and isinstance(f.body.func, ast.Name) and not f.body.args:
+                return "(D_factory %s)" % coq_lit(f.body.func.id)
+            if isinstance(f, ast.Name):
+                return "(D_factory %s)" % coq_lit(f.id)
+            raise Decline("default_factory")
+        return "D_required"
+    raise Decline("default expression " + type(v).__name__)
+
+
+def generate_fields(repo, outpath):
+    from common import write_if_changed
+    notes = {}
+    try:
+        with open(os.path.join(repo, "code_data", "__init__.py")) as f:
+            tree = ast.parse(f.read())
+        classes = []
+        for n in tree.body:
+            if isinstance(n, ast.ClassDef) and any(
+                    (isinstance(d, ast.Call) and getattr(d.func, "id", "") == "dataclass") or getattr(d, "id", "") == "dataclass"
+                    for d in n.decorator_list):
+                fields = []
+                for st in n.body:
+                    if isinstance(st, ast.AnnAssign) and isinstance(st.target, ast.Name):
+                        fields.append("(%s, %s)" % (coq_lit(st.target.id), default_kind(st.value)))
+                classes.append("(%s, [%s])" % (coq_lit(n.name), "; ".join(fields)))
+        text = ("(* generated by harness/translate_src.py from code_data/__init__.py on every run; do not edit *)\n"
+                "From Coq Require Import String List.\nImport ListNotations.\n"
+                "From PCD Require Import Base.PyBase Model.Json Model.JsonFields.\n\n"
+                "Definition source_fields : list (str * list (str * field_default)) :=\n  [%s].\n"
+                "Definition fields_translated := true.\n" % ";\n   ".join(classes))
+        notes["fields"] = "translated (%d classes)" % len(classes)
+    except (Decline, OSError, SyntaxError) as e:
+        text = ("(* dataclass fields declined: %s *)\nFrom PCD Require Import Base.PyBase Model.Json Model.JsonFields.\n"
+                "Definition source_fields : list (str * list (str * field_default)) := model_fields.\n"
+                "Definition fields_translated := false.\n" % e)
+        notes["fields"] = "declined: %s" % e
+    notes["changed"] = write_if_changed(outpath, text)
+    return notes
+
+
 def generate(repo, outpath):
     from common import write_if_changed
     notes = {}
